@@ -56,8 +56,8 @@ PROPS = {
     "C01": with_listen(wire("C01", ["`Proper` method implementations (continues* + one final, or failure) for the exactly-once clause"])),
     "C02": with_listen(wire("C02")),
     "C03": wire("C03"),
-    "C04": with_client(wire("C04", ["client half: theorems C04_client_oneway / C04_client_oneway_never_reads in Props/C07.lean over Model.Client"]),
-                       "VarlinkVerif.Props.C07"),
+    "C04": with_listen(with_client(wire("C04", ["client half: theorems C04_client_oneway / C04_client_oneway_never_reads in Props/C07.lean over Model.Client"]),
+                       "VarlinkVerif.Props.C07")),
     "C05": with_client(wire("C05", ["replies handed to reply_struct are built by Reply::parameters/error (no continues member of their own)",
                                     "client half: theorem C05_iteration in Props/C07.lean over Model.Client"]),
                        "VarlinkVerif.Props.C07"),
